@@ -34,4 +34,60 @@ theorem C15_add_success_means_written (o : Oracle) (k : Nat) (nowSec : Int) (eff
   unfold doPlain at hok ⊢
   split at hok <;> simp_all
 
+/-- Removing the first escalator taint lowers the number of escalator taints by exactly one: an UPDATE whose object carries
+    *more* escalator taints than the fetched copy is therefore never a removal (the monitor `C15.restampBad` reads "add" off
+    the counts). -/
+theorem C15_removal_lowers_count (u : Node) (h : hasTaint escKey u = true) :
+    escCount { u with taints := swapRemoveFirst (fun t => t.key == escKey) u.taints } + 1 = escCount u := by
+  unfold hasTaint at h
+  obtain ⟨i, hi⟩ : ∃ i, u.taints.findIdx? (fun t => t.key == escKey) = some i := by
+    cases hf : u.taints.findIdx? (fun t => t.key == escKey) with
+    | some i => exact ⟨i, rfl⟩
+    | none =>
+      rw [List.findIdx?_eq_none_iff] at hf
+      obtain ⟨t, ht, hk⟩ := List.any_eq_true.mp h
+      have := hf t ht
+      simp [hk] at this
+  obtain ⟨x, _, hpx, hperm⟩ := swapRemoveFirst_perm (fun t => t.key == escKey) u.taints i hi
+  unfold escCount
+  have := (hperm.filter (fun t => t.key == escKey)).length_eq
+  simp only [List.filter_cons, hpx, if_true, List.length_cons] at this
+  show (List.filter (fun t => t.key == escKey) (swapRemoveFirst (fun t => t.key == escKey) u.taints)).length + 1 = _
+  omega
+
+/-- **C15, the whole scan (no re-stamp of a node tainted in the view).** Every UPDATE of a group scan either names a node that
+    carries *no* escalator taint in this scan's view — the only nodes a taint is ever added to — or is the removal of the first
+    escalator taint from the copy just fetched. So no node that the scan sees tainted is given a new stamp in that scan, by
+    whatever sequence of writes; together with `C15_removal_lowers_count` this is what `Spec.C15.restampBad` monitors. -/
+theorem C15_scan_no_restamp_in_view (rnd : Rat → Rat) (o : Oracle) (k : Nat) (globalDry : Bool) (cfg : GroupCfg) (st0 : GState)
+    (g : PGroup) (view : View) (h : Hints) (nowMock nowReal : Int) :
+    ∀ e ∈ (scanGroup rnd o k globalDry cfg st0 g view h nowMock nowReal).j, ∀ obj, e.call = .updateNode obj →
+      (∃ c ∈ view.nodes, c.name = obj.name ∧ hasTaint escKey c = false) ∨
+      (∃ u, u.name = obj.name ∧ hasTaint escKey u = true ∧
+        obj = { u with taints := swapRemoveFirst (fun t => t.key == escKey) u.taints }) := by
+  intro e he obj hc
+  have := scanGroup_entries rnd o k globalDry cfg st0 g view h nowMock nowReal e he
+  cases this with
+  | metrics n hn b => cases hc
+  | force hf => cases hf <;> cases hc
+  | reap hf => cases hf <;> cases hc
+  | taint hd c hcm ha =>
+    cases ha with
+    | get b => cases hc
+    | upd u b hn hno =>
+      injection hc with hc; subst hc
+      rw [hd] at hcm
+      obtain ⟨hmem, hcl⟩ := nodesOf_mem hcm
+      exact Or.inl ⟨c, hmem, hn.symm, (classify_untainted hcl).2.2⟩
+  | up hd hu =>
+    cases hu with
+    | untaint c hcm hh hdl =>
+      cases hdl with
+      | get b => cases hc
+      | upd u b hn hhas =>
+        injection hc with hc; subst hc
+        exact Or.inr ⟨u, rfl, hhas, rfl⟩
+    | increase hi =>
+      rw [hc] at hi; simp [isIncreaseCall] at hi
+
 end Esc.P
